@@ -320,6 +320,9 @@ func OracleC02(ex *Exec) *Obs {
 		return o
 	}
 	price := ex.Case.price
+	if ex.Case.InboundETX {
+		price = new(big.Int) // nobody pays gas for an inbound ETX at the destination
+	}
 	gasCost := new(big.Int).Mul(new(big.Int).SetUint64(ex.Res.UsedGas), price)
 	if ex.Res.UsedGas > ex.Case.Gas {
 		o.bad("gas-used-above-limit", "used %d limit %d", ex.Res.UsedGas, ex.Case.Gas)
@@ -382,6 +385,9 @@ func OracleC02(ex *Exec) *Obs {
 	expected := new(big.Int).Sub(sumB, gasCost)
 	expected.Sub(expected, debits)
 	expected.Add(expected, refunds)
+	if ex.Case.InboundETX && !failed {
+		expected.Add(expected, ex.Case.value) // the inbound transfer's own value
+	}
 	cls := "success"
 	if failed {
 		cls = "failed"
@@ -395,6 +401,17 @@ func OracleC02(ex *Exec) *Obs {
 		if v.Sign() < 0 {
 			o.bad("negative-balance", "%x has %s", a[:], v)
 		}
+	}
+	if ex.Case.InboundETX {
+		if failed {
+			for a, v := range ex.After {
+				if v.Cmp(ex.Before[a]) != 0 {
+					o.bad("failed-inbound-etx-changed-balance", "inbound ETX failed (%v) but %x went from %s to %s", ex.Res.Err, a[:], ex.Before[a], v)
+				}
+			}
+		}
+		o.class(fmt.Sprintf("inbound-etx:%s:%s", cls, reg))
+		return o
 	}
 	// the payer's charge
 	payerDelta := new(big.Int).Sub(ex.PayerBefore, ex.After[Sender.Bytes20()])
